@@ -160,6 +160,33 @@ def native_replay(replay_obj, workdir):
     return None, {'error': f'replay rc={proc.returncode}: {proc.stderr[-500:]}'}
 
 
+def retry_task_excluding(task, cex, round_no, workdir):
+    """R4: a counterexample that does not reproduce natively is a model artefact; re-run the condition with that input excluded."""
+    import ast
+    src = open(task['module']).read()
+    tree = ast.parse(src)
+    fn = next((n for n in tree.body if isinstance(n, ast.FunctionDef) and n.name == task['fn']), None)
+    if fn is None or not cex or cex.get('kwargs'):
+        return None
+    params = [a.arg for a in fn.args.args]
+    if len(params) != len(cex['args']):
+        return None
+    excl = ' and '.join(f'{p} == {v!r}' for p, v in zip(params, cex['args']))
+    doc = ast.get_docstring(fn, clean=False) or ''
+    lines = doc.split('\n')
+    idx = max(i for i, ln in enumerate(lines) if ln.strip().startswith('pre:')) if any(ln.strip().startswith('pre:') for ln in lines) else 0
+    lines.insert(idx + 1, f'    pre: not ({excl})')
+    new = ast.FunctionDef(name=f"{task['fn']}_x{round_no}", args=fn.args, body=[ast.Expr(ast.Constant('\n'.join(lines)))] + fn.body[1:],
+                          decorator_list=[], returns=fn.returns, type_params=[])
+    ast.fix_missing_locations(new)
+    path = os.path.join(workdir, os.path.basename(task['module'])[:-3] + f'_x{round_no}_{task["fn"]}.py')
+    with open(path, 'w') as fh:
+        fh.write(src + '\n\n' + ast.unparse(new) + '\n')
+    t = dict(task)
+    t.update(module=path, fn=new.name, id=task['id'])
+    return t
+
+
 def load_known():
     path = os.path.join(ROOT, 'known_findings.json')
     if not os.path.exists(path):
@@ -185,6 +212,38 @@ def execute(plan, tier, seed, batch_seconds=60.0):
     workdir = plan.workdir
     known = load_known()
     results = run_tasks(plan.tasks, workdir, seed, preload=plan.preload, batch_seconds=batch_seconds)
+    # R4: counterexamples that do not reproduce natively are model artefacts - exclude that input and re-run the condition (<= 3 rounds)
+    replay_cache = {}
+    excluded = {}
+    for round_no in range(1, 4):
+        retry = []
+        for task in plan.tasks:
+            res = results.get(task['id'], {})
+            if task['kind'] != 'ch' or task.get('twin_of') or res.get('state') != 'refuted' or not res.get('cex'):
+                continue
+            robj = {'property': plan.prop, 'task': task['id'], 'kind': 'ch', 'fn': task['fn'], 'harness_src': open(task['module']).read(),
+                    'args': res['cex']['args'], 'kwargs': res['cex']['kwargs'], 'meta': plan.meta.get(task['id'], {}),
+                    'crosshair_message': res.get('cex_message')}
+            key = (task['id'], json.dumps(res['cex'], sort_keys=True, default=repr))
+            if key not in replay_cache:
+                replay_cache[key] = native_replay(robj, workdir)
+            if replay_cache[key][0] is False:
+                excluded.setdefault(task['id'], []).append(res['cex'])
+                cur = dict(task)
+                cur['module'] = res.get('_module', task['module'])
+                cur['fn'] = res.get('_fn', task['fn'])
+                t2 = retry_task_excluding(cur, res['cex'], round_no, workdir)
+                if t2 is not None:
+                    retry.append(t2)
+        if not retry:
+            break
+        more = run_tasks(retry, workdir, seed, preload=plan.preload, batch_seconds=batch_seconds)
+        for t2 in retry:
+            r2 = more.get(t2['id'])
+            if r2 is not None:
+                r2['_module'], r2['_fn'] = t2['module'], t2['fn']
+                r2['excluded_spurious_inputs'] = excluded.get(t2['id'])
+                results[t2['id']] = r2
     counts = {'confirmed': 0, 'refuted': 0, 'inconclusive': 0, 'skipped': 0, 'known': 0}
     violations, known_hits, inconclusive, errors, spurious = [], [], [], [], []
     paths = queries = 0
@@ -232,8 +291,8 @@ def execute(plan, tier, seed, batch_seconds=60.0):
                     counts['inconclusive'] += 1
                     inconclusive.append({'id': tid, 'why': 'counterexample not parseable: ' + str(res.get('cex_message'))[:300]})
                     continue
-                replay_obj = {'property': plan.prop, 'task': tid, 'kind': 'ch', 'fn': task['fn'],
-                              'harness_src': open(task['module']).read(), 'args': res['cex']['args'],
+                replay_obj = {'property': plan.prop, 'task': tid, 'kind': 'ch', 'fn': res.get('_fn', task['fn']),
+                              'harness_src': open(res.get('_module', task['module'])).read(), 'args': res['cex']['args'],
                               'kwargs': res['cex']['kwargs'], 'meta': meta, 'crosshair_message': res.get('cex_message')}
             else:
                 replay_obj = {'property': plan.prop, 'task': tid, 'kind': 'fn', 'module': res['replay']['module'],
@@ -286,6 +345,7 @@ def execute(plan, tier, seed, batch_seconds=60.0):
         'exhaustive': bool(n_main and counts['confirmed'] == n_main),
         'inconclusive_items': inconclusive[:60],
         'spurious_counterexamples': spurious[:20],
+        'inputs_excluded_as_model_artefacts': dict(list(excluded.items())[:20]),
         'known_findings_hit': known_hits[:40],
         'violation_details': [{'task': v['task'], 'input': v['input'], 'info': v['info']} for v in violations[:20]],
         'harness_errors': errors[:20],
